@@ -128,6 +128,14 @@ def astep (g : Nat → Nat → Nat) (A : List AL) : Op → List AL × Ans
       if cap < 0 then (A, .panic)
       else if a.xs.length ≤ cap.toNat then (A ++ [⟨a.xs, cap.toNat⟩], .obj A.length)
       else (A ++ [⟨a.xs, max (g cap.toNat a.xs.length) a.xs.length⟩], .obj A.length)
+  | .vsl o r =>
+    match A[o]? with
+    | none => (A, .bad)
+    | some al =>
+      let (lo, hi) := r.bounds al.xs.length
+      match normIndex lo al.xs.length, normIndex hi al.xs.length with
+      | some i, some j => (A ++ [apushEach g ⟨[], 0⟩ ((al.xs.drop i).take (j + 1 - i))], .obj A.length)
+      | _, _ => (A, .oor)
   | .vrem o v =>
     match A[o]? with
     | none => (A, .bad)
